@@ -391,6 +391,7 @@ class Gen:
         self.max_ev = max_ev
         self.next_id = 1
         self.off = 0          # the universe of a case is off .. off+m (chosen per case in leaf())
+        self.big_ok = False   # set by the families whose cases need not be datetimes
 
     def fresh(self):
         i = self.next_id
@@ -411,6 +412,10 @@ class Gen:
             # a universe straddling or below zero: 0 and -1 are the values code is tempted to use as
             # 'nothing yet' markers, and no test places an event or a window edge there
             self.off = 0 if r.random() < 0.65 else r.randrange(-self.m - 1, 0)
+            if self.big_ok and r.random() < 0.06:
+                # very large but finite instants (millisecond timestamps, years past 9999): finite is
+                # finite, however close to the implementation's idea of infinity
+                self.off = r.choice([1, -1]) * r.choice([4 * 10 ** 12, 2 ** 40, 2 ** 61])
         made = getattr(self, "made", [])
         if made and r.random() < 0.07:
             # the same timeline object used twice in one expression (same events, same ids)
